@@ -9,12 +9,20 @@ cd /verif
 # build once, then run a private copy of the binary: later rebuilds do not disturb the sweep
 ./check build > /dev/null 2>&1 || { echo "build failed"; exit 2; }
 cp /verif/sim/target/release/vsim $dir/vsim
+cp /verif/sim/target-dbg/release/vsim $dir/vsim-dbg
+mkdir -p $dir/dbg; cp /verif/KNOWN_FINDINGS.jsonl $dir/dbg/
+DBG_PROPS=" C05 C06 C07 C08 C09 C11 C12 C13 C16 "
 bad=0; total=0
 for ((sd=first; sd<first+count; sd++)); do
   for p in C01 C02 C03 C04 C05 C06 C07 C08 C09 C10 C11 C12 C13 C14 C15 C16 C17; do
     out=$(VERIF_SEED=$sd VERIF_DIR=$dir $dir/vsim check --property $p --tier $tier --jobs ${VERIF_JOBS:-16} 2>&1); rc=$?
     total=$((total+1))
     if [ $rc -ne 0 ]; then bad=$((bad+1)); echo "seed=$sd $p rc=$rc $(echo "$out" | grep -E "VIOLATION|class:|HARNESS" | head -4 | tr '\n' ' ' | cut -c1-400)"; fi
+    if [ $rc -eq 0 ] && [[ "$DBG_PROPS" == *" $p "* ]]; then
+      out=$(VERIF_SEED=$sd VERIF_DIR=$dir/dbg $dir/vsim-dbg check --property $p --tier $tier --jobs ${VERIF_JOBS:-16} 2>&1); rc=$?
+      total=$((total+1))
+      if [ $rc -ne 0 ]; then bad=$((bad+1)); echo "seed=$sd $p (debug assertions) rc=$rc $(echo "$out" | grep -E "VIOLATION|class:|HARNESS" | head -4 | tr '\n' ' ' | cut -c1-400)"; fi
+    fi
   done
 done
 echo "sweep: $total check runs, $bad not clean (seeds $first..$((first+count-1)), tier $tier)"
